@@ -125,7 +125,7 @@ impl Check for FormatCheck {
     }
     fn budget(&self, tier: Tier) -> Budget {
         match tier {
-            Tier::Quick => Budget { runs: 6000, max_secs: 50.0 },
+            Tier::Quick => Budget { runs: 40000, max_secs: 40.0 },
             Tier::Thorough => Budget { runs: 1_000_000, max_secs: 900.0 },
         }
     }
@@ -603,7 +603,7 @@ impl Check for FileSinkCheck {
     }
     fn budget(&self, tier: Tier) -> Budget {
         match tier {
-            Tier::Quick => Budget { runs: 1500, max_secs: 50.0 },
+            Tier::Quick => Budget { runs: 20000, max_secs: 40.0 },
             Tier::Thorough => Budget { runs: 300_000, max_secs: 900.0 },
         }
     }
@@ -1021,7 +1021,7 @@ impl Check for MappingCheck {
     }
     fn budget(&self, tier: Tier) -> Budget {
         match tier {
-            Tier::Quick => Budget { runs: 4000, max_secs: 45.0 },
+            Tier::Quick => Budget { runs: 12000, max_secs: 40.0 },
             Tier::Thorough => Budget { runs: 500_000, max_secs: 900.0 },
         }
     }
